@@ -1,7 +1,8 @@
 (* Findings/C14_mass.v -- open findings about stats.misorientations_random, as theorems about
    the faithful model: the tetragonal and hexagonal densities do not integrate to 1. *)
-From Coq Require Import Reals ZArith List.
-From PV Require Import Num NumR Model_mindex Proofs_mindex Proofs_mindex_mass.
+From Coq Require Import Reals ZArith List Lra.
+From PV Require Import Num NumR Model_mindex Proofs_mindex Proofs_mindex_mass
+  Proofs_mindex_single_tm Proofs_mindex_single_thm.
 Import ListNotations.
 Open Scope R_scope.
 
@@ -19,3 +20,24 @@ Theorem C14_rhombohedral_density_undefined :
   @density_edge NumR Rhombohedral (edge 105) = Err AssertionError /\
   exists e, @theory NumR Rhombohedral = Err e.
 Proof. exact (conj density_rhombohedral_105 theory_rhombohedral_error). Qed.
+
+(* consequence for "close to 1 for a single-orientation texture": with all grains equal the
+   tetragonal index is at most 0.975 and the hexagonal one at most 0.99 (code: 0.9726, 0.9883) *)
+Theorem C14_single_orientation_tetragonal_hexagonal :
+  forall (as_quat : list R -> Q4) v (os : list (list R)) o,
+  (2 <= length os)%nat -> Forall (eq o) os -> qnorm2 (as_quat o) = 1 ->
+  (exists m, @misorientation_index NumR as_quat v Tetragonal os = Ok m /\ m <= 975 / 1000) /\
+  (exists m, @misorientation_index NumR as_quat v Hexagonal os = Ok m /\ m <= 99 / 100).
+Proof.
+  intros as_quat v os o Hn Hall Hq. split.
+  - destruct (mindex_single_upper as_quat v Tetragonal os o _ (95 / 100) Hn Hall Hq theory_tetragonal
+                theory_tetragonal_nonneg) as (m & Hm & Hb).
+    + eapply Rle_trans; [apply first_bin_tetragonal|lra].
+    + exact mass_tetragonal.
+    + exists m. split; [exact Hm|lra].
+  - destruct (mindex_single_upper as_quat v Hexagonal os o _ (98 / 100) Hn Hall Hq theory_hexagonal
+                theory_hexagonal_nonneg) as (m & Hm & Hb).
+    + eapply Rle_trans; [apply first_bin_hexagonal|lra].
+    + exact mass_hexagonal.
+    + exists m. split; [exact Hm|lra].
+Qed.
